@@ -146,12 +146,12 @@ func loadMachine(repoDir, harnessDir string, patterns []string) (*machine, error
 		"errors", "sort", "path", "unicode/utf8", "unicode", "encoding/binary", "bufio", "io", "container/list",
 		"golang.org/x/sync/semaphore", "strconv", "container/heap", "math", "math/bits", "bytes", "strings", "slices", "cmp",
 		"github.com/ipfs/go-datastore", "github.com/ipfs/go-datastore/query", "github.com/ipfs/boxo/path",
-		"github.com/hashicorp/golang-lru", "encoding/base64", "encoding/hex", "net/url", "sync/atomic", "unicode/utf16",
+		"github.com/hashicorp/golang-lru", "encoding/base64", "encoding/hex", "net/url", "sync/atomic", "unicode/utf16", "time",
 	}
 	m.initPrefixes = []string{
 		"berty.tech/go-orbit-db", "berty.tech/go-ipfs-log", "errors", "io", "bufio", "encoding/binary",
 		"github.com/ipfs/go-datastore", "context", "path", "golang.org/x/sync/semaphore", "github.com/ipfs/boxo/path",
-		"encoding/base64",
+		"encoding/base64", "strings", "bytes", "strconv",
 	}
 	m.zeroPolicy = []string{"go.uber.org/zap", "go.opentelemetry.io/otel", "github.com/ipfs/kubo/core/coreiface/options"}
 	m.registerIntrinsics()
